@@ -26,3 +26,10 @@ macro_metadata = dict(
     bounded=dict(bound='strings of length <= 8 (thorough: 10) over 5 / 7 symbols', form='b'),
     dropped=[], trusted=['g++ executes the real constexpr functions at run time'], min_obligations=1, timeout=900)
 UNITS += [macro_metadata]
+dispatch_lines = dict(
+    name='BW.dispatch_lines', primary='C12', props={'C12'}, kind='L', funcs=[], enforce=None,
+    desc='BackendWorker::_dispatch_transit_event_to_sinks + _process_multi_line_message through the real pipeline (ManualBackendWorker, recording sink) against the specification of the statement lines, exhaustively over short messages - independent of how the newline handling is written',
+    native=dict(cpp='dispatch_lines.cpp', file='include/quill/backend/BackendWorker.h', function='BackendWorker::_dispatch_transit_event_to_sinks', defs_quick=['LEN=6'], defs_thorough=['LEN=8']),
+    bounded=dict(bound='messages of length <= 6 (thorough: 8) over {a, b, newline} x 3 configurations', form='b'),
+    dropped=[], trusted=['g++ / libstdc++ / fmt execute the real frontend and backend'], min_obligations=1, timeout=900)
+UNITS += [dispatch_lines]
